@@ -217,8 +217,9 @@ pub struct TransferStats {
     pub audios_served: Vec<Uuid>,
     /// downloads requested and not yet applied: (class 0 mesh / 1 image / 2 audio, id, downloads under way)
     pub pending: Vec<(u8, Uuid, usize)>,
-    /// downloads dropped on arrival because a newer download of the asset had arrived before (all so far, in order)
-    pub dropped: Vec<(u8, Uuid)>,
+    /// downloads that have arrived, all so far in order of arrival: (class, id, number of the request,
+    /// dropped because a download of a later request had arrived before)
+    pub arrivals: Vec<(u8, Uuid, u64, bool)>,
 }
 
 pub fn transfer_stats(world: &World) -> Option<TransferStats> {
